@@ -30,6 +30,9 @@ def cases(tier, seed):
             for c in cs:
                 if c.get("kind") == "apply" and not c.get("via"):
                     first.setdefault((c.get("ncols"), c.get("masked"), bool(c.get("transform"))), c)
+            for c in cs:
+                if c.get("comp") == "subset_ratio":          # two caller-owned masks are combined in the wrapper
+                    first[("subset_ratio", c["name"])] = c
             picked = picked + [c for c in first.values() if not any(c is q for q in picked)]
         for c in picked:
             out.append({"src": tag, "case": c, "name": f"no input writes / no aliasing:{tag}:{c['name']}"})
@@ -104,6 +107,9 @@ def replay(case, conc, cand=None):
     saved = {}
 
     def wrap(name, fn):
+        import functools
+
+        @functools.wraps(fn)          # the library inspects the signatures of these functions
         def w(*a, **k):
             arrs = [x for x in list(a) + list(k.values()) if isinstance(x, np.ndarray)]
             before = [x.copy() for x in arrs]
@@ -126,8 +132,10 @@ def replay(case, conc, cand=None):
             setattr(rnb, n, wrap(n, saved[n]))
         try:
             r = mod.replay(c, conc, cand)
-            if src == "C16" and r and r[0] and "view of the caller" in str(r[1].get("problem", "")):
-                problems.append(r[1]["problem"])
+            if src == "C16" and r and r[0] and isinstance(r[1], dict):
+                if "view of the caller" in str(r[1].get("problem", "")):
+                    problems.append(r[1]["problem"])
+                problems.extend(p_ for p_ in r[1].get("problems", []) if "modified the caller" in str(p_))
         except Exception as e:      # noqa: BLE001
             problems.append(f"replay raised {type(e).__name__}: {e}")
     finally:
